@@ -35,6 +35,8 @@ type opd =
   | OReopen
   | ORestart
   | OCap of int
+  | OVisit
+  | OScan
 
 let parse_op s =
   match split '.' s with
@@ -42,6 +44,8 @@ let parse_op s =
   | ["s"; mb; h] -> OSeen (int_of_string mb, int_of_string h)
   | ["r"; mb; h] -> ORemove (int_of_string mb, int_of_string h)
   | ["p"; mb] -> OPurge (int_of_string mb)
+  | ["v"] -> OVisit
+  | ["t"] -> OScan
   | ["R"] -> OReopen
   | ["C"; n] -> OCap (int_of_string n)
   | ["X"] -> ORestart
@@ -98,7 +102,7 @@ let mk_op ctx st o : op * int =
   | OSeen (mb, h) -> (Seen (s2l (mbname ctx mb), id_of st mb h), mb)
   | ORemove (mb, h) -> (Remove (s2l (mbname ctx mb), id_of st mb h), mb)
   | OPurge mb -> (Purge (s2l (mbname ctx mb)), mb)
-  | OReopen | ORestart | OCap _ -> failwith "mk_op"
+  | OReopen | ORestart | OCap _ | OVisit | OScan -> failwith "mk_op"
 
 let res_string st mb = function
   | ROk -> "ok"
@@ -107,10 +111,33 @@ let res_string st mb = function
   | RSpin -> "spin"
   | RId _ -> "k" ^ string_of_int (List.length st.tab.(mb))
 
+(* dates: "old" messages (2020) are expired for the 1 h retention period, "young" ones lie in the future *)
+let expiry_threshold = 3000000000
+let date_of_info (i : string) =
+  match List.rev (String.split_on_char '|' i) with d :: _ -> (try int_of_string d with _ -> 0) | [] -> 0
+
+let visit_fwd : (ctx -> st -> string) ref = ref (fun _ _ -> "UNSET")
+
 (* a completed operation on the model *)
-let do_op ctx st o : string * st =
+let rec do_op ctx st o : string * st =
   match o with
   | OReopen | ORestart | OCap _ -> ("-", st)     (* the state IS the disk: nothing to do *)
+  | OVisit -> ("V=" ^ !visit_fwd ctx st, st)
+  | OScan ->
+      (* RetentionScanner.DoScan: the visit walk, RemoveMessage for every message older than the cutoff *)
+      let st = ref st in
+      List.iteri (fun mb _ ->
+        match view dec !st.d (ctx.hash (s2l (mbname ctx mb))) with
+        | Some v ->
+            List.iter (fun ((_, m), _) ->
+              if date_of_info (l2s m.m_info) < expiry_threshold then begin
+                let op = Remove (s2l (mbname ctx mb), m.m_id) in
+                match run (steps enc dec ctx.hash ctx.capn op !st.d) !st.d with
+                | Some d' -> st := { !st with d = d' }
+                | None -> ()
+              end) v
+        | None -> ()) ctx.pool;
+      ("ok", !st)
   | _ ->
     let (op, mb) = mk_op ctx st o in
     let r = result_of dec ctx.hash ctx.capn op st.d in
@@ -166,6 +193,8 @@ let visit_s ctx st =
           | [] -> -1 in
         render_msgs st mb v in
       String.concat "|" (List.sort compare (List.map one vs))
+
+let () = visit_fwd := visit_s
 
 let site = function
   | Mkdir _ -> "dir.mkdir"
@@ -439,13 +468,31 @@ let () =
                 ab.(mb) <- List.filter (fun m -> handle_of_msg m <> hs) ab.(mb);
                 sres := "ok" :: !sres end
               else sres := "notexist" :: !sres
-          | OPurge mb -> ab.(mb) <- []; sres := "ok" :: !sres) ops;
+          | OPurge mb -> ab.(mb) <- []; sres := "ok" :: !sres
+          | OVisit ->
+              let v = sstate () in
+              let i = String.index v '/' in
+              sres := ("V=" ^ String.sub v (i + 1) (String.length v - i - 1)) :: !sres
+          | OScan ->
+              let young m = match split '.' m with
+                | _ :: _ :: inf :: _ -> date_of_info (Mlutil.unhex inf) >= expiry_threshold | _ -> true in
+              Array.iteri (fun i l -> ab.(i) <- List.filter young l) ab; sres := "ok" :: !sres) ops;
         let verdict =
           match outs with
           | ["POOL-DIFFERS"] -> "fail:hash-of-pool-names-changed"
           | _ ->
             let isame = field outs "same" in
-            if field outs "res" <> j "," !sres then "fail:operation-result-differs-from-ordered-map"
+            if field outs "res" <> j "," !sres then begin
+              (* name the first differing result *)
+              let ir = split ',' (field outs "res") and sr = List.rev !sres in
+              let rec first a b = match a, b with
+                | x :: a', y :: b' -> if x = y then first a' b' else Some x
+                | x :: _, [] -> Some x | [], _ -> None in
+              match first ir sr with
+              | Some x when String.length x >= 2 && String.sub x 0 2 = "V=" ->
+                  "fail:visit-differs-from-the-set-of-non-empty-mailboxes"
+              | _ -> "fail:operation-result-differs-from-ordered-map"
+            end
             else if has_sub isame "0" then "fail:state-differs-before-and-after-reopen"
             else if field outs "cks" <> j "^" !scks then "fail:state-after-reopen-differs-from-ordered-map"
             else if field outs "fin" <> sstate () then "fail:final-state-differs-from-ordered-map"
